@@ -142,11 +142,9 @@ fn oracle_build(inp: &PV, out: &PV) -> T {
             Some((s, t)) => tm::and(vec![tm::bconst(s.len() == 1 && t.len() == 2 && f.t.len() == 1 && t[1] == f.t[0] && f.quot.is_empty()), tm::and(f.nodes.iter().map(|l| tm::eq(*l, tx)).filter(|_| true).take(0).collect()), tm::and(s.iter().chain(t.iter()).map(|n| tm::eq(f.nodes[RawLax::id(*n)], tx)).collect())]),
         };
     }
-    if script == 7 {
-        // building fails, handing back the shared state, only when a handle outlives the builder
-        return tm::bconst(tag == "Err");
-    }
-    if tag != "Ok" {
+    // building fails, handing back the shared state, only when a handle outlives the builder (script 7); the
+    // state handed back is the term as built: declared inputs and outputs are its interfaces
+    if (tag == "Err") != (script == 7) {
         return tm::FALSE;
     }
     let zero = tm::c(0, vw());
@@ -162,6 +160,8 @@ fn oracle_build(inp: &PV, out: &PV) -> T {
             let shl = bin(L_SHL, bin(L_OR, x, y), bin(L_SHR, y, x));
             (2, 4, vec![bin(L_DIV, shl, x)], vec![tx, ty], vec![tx])
         }
+        // inputs [x], outputs [y]; y is never defined, so its value is not constrained (see `got` below)
+        7 => (1, 0, vec![], vec![tx], vec![ty]),
         _ => return tm::FALSE,
     };
     let ins: Vec<T> = [x, y][..n_in].to_vec();
@@ -178,7 +178,7 @@ fn oracle_build(inp: &PV, out: &PV) -> T {
         // one hyperedge per applied operator (plus variable hyperedges), no pending unification
         tm::bconst(ops == n_ops && f.quot.is_empty()),
         // every use of a variable reads the value produced for it: the term computes the expression written
-        all_eq(&got, &want),
+        if script == 7 { tm::bconst(got.len() == 1) } else { all_eq(&got, &want) },
         // declared inputs and outputs are the interfaces, in order, with their declared labels
         all_eq(&lab_at(&f.s), &types_in),
         all_eq(&lab_at(&f.t), &types_out),
